@@ -32,7 +32,7 @@ func genC11(t *rapid.T) snapCase {
 	}
 	c.Names = genNames(t, false)
 	c.Ops = genOps(t, 40, map[int]int{opJoin: 6, opLeave: 2, opFailed: 2, opUpdate: 1, opReap: 1, opUser: 2,
-		opQuery: 2, opWitness: 2, opTick: 1, opAdvance: 2})
+		opQuery: 2, opWitness: 2, opTick: 1, opAdvance: 2, opReopen: 1})
 	if rapid.IntRange(0, 5).Draw(t, "bulk") == 0 {
 		// a burst: many member events with long names and no flush in between, so
 		// that the buffered writer spills 4096-byte chunks that end mid-line
@@ -45,6 +45,9 @@ func genC11(t *rapid.T) snapCase {
 		for len(c.Ops) < 34 {
 			c.Ops = append(c.Ops, hOp{K: opJoin, M: len(c.Ops) % 5, A: len(c.Ops) % 3})
 		}
+	}
+	for i := 0; i < 3; i++ {
+		c.Picks = append(c.Picks, rapid.IntRange(0, 9999).Draw(t, "pick"))
 	}
 	c.Ops2 = genOps(t, 14, map[int]int{opJoin: 4, opLeave: 3, opFailed: 3, opUser: 2, opQuery: 2, opWitness: 2, opTick: 1, opAdvance: 1})
 	return c
@@ -115,10 +118,18 @@ func bodyC11(c snapCase, x *vkit.Ctx) {
 	prevDesc := "start"
 	nt := 0
 	for k, img := range images {
-		rec, err := restoreFrom(img.Files, r.path, false)
+		rec, rec2nd, err := restoreTwice(img.Files, r.path, false, true)
 		desc := fmt.Sprintf("crash point %d/%d (after op %s%s, history step %d)", k, len(images), oplog[img.AfterOp], map[bool]string{true: " TORN", false: ""}[img.Torn], img.Step)
 		if err != nil {
 			x.Violationf("restart-fails", "%s: restart from the crash image fails: %v (files %v)", desc, err, img.Files)
+			return
+		}
+		// the node restarted from the image, learnt nothing and was shut down: the
+		// next restart must find what this one found (a restart must not itself
+		// lose recovered state, e.g. while tidying up what the crash left)
+		if aliveKey(rec2nd.Alive) != aliveKey(rec.Alive) || rec2nd.Clock != rec.Clock || rec2nd.Event != rec.Event || rec2nd.Query != rec.Query {
+			x.Violationf("second-restart-recovers-something-else", "%s: the restart from the crash image recovers %s/%d/%d/%d; that node is shut down with nothing learnt, and the restart after it recovers %s/%d/%d/%d; files at crash: %q",
+				desc, aliveKey(rec.Alive), rec.Clock, rec.Event, rec.Query, aliveKey(rec2nd.Alive), rec2nd.Clock, rec2nd.Event, rec2nd.Query, img.Files)
 			return
 		}
 		// rejoin set: smallest prefix index >= prevIdx whose model state matches
@@ -190,6 +201,27 @@ func bodyC11(c snapCase, x *vkit.Ctx) {
 		}
 		picked++
 		if !continueFrom(&c, img, r.path, x, fmt.Sprintf("crash point %d/%d (after op %s)", k, len(images), oplog[img.AfterOp])) {
+			return
+		}
+	}
+
+	// ... and from drawn crash points anywhere in the history, torn writes included
+	// (a partial last line is what the restart has to cope with there)
+	seenPick := map[int]bool{}
+	for _, p := range c.Picks {
+		if len(images) == 0 {
+			break
+		}
+		k := p % len(images)
+		if seenPick[k] {
+			continue
+		}
+		seenPick[k] = true
+		img := images[k]
+		if img.Torn {
+			x.Label("continue:from-torn-write")
+		}
+		if !continueFrom(&c, img, r.path, x, fmt.Sprintf("crash point %d/%d (after op %s%s)", k, len(images), oplog[img.AfterOp], map[bool]string{true: " TORN", false: ""}[img.Torn])) {
 			return
 		}
 	}
